@@ -10,6 +10,9 @@ TRUST = [
 
 MODNAMES = ["lib", "m", "util", "a", "solar"]
 ALIASES = [None, None, "L", "x", "helpers"]
+# (first module, its alias, second module, its alias): aliases spelled like the other module's file name
+PAIRS = [("pump_v2", "pump", "pump", "legacy"), ("a", "b", "b", "a"), ("lib", None, "m", "lib2"), ("util", "m", "m", "u"),
+         ("solar", None, "solar_2", "sol"), ("x", "y", "y", "z")]
 
 
 def rename(node, vmap, fmap):
@@ -62,9 +65,41 @@ class Split:
             f = g.function(i, list(P.funcs))
             f.name = f"LF{i}"
             P.funcs.append(f)
+        # optionally a second library with state of its own (one global that its function updates)
+        self.second = rng.random() < 0.5
+        self.lib2_fn = None
+        if self.second:
+            self.mod, self.alias, self.mod2, self.alias2 = rng.choice(PAIRS)
+            P.globals.append("LH0")
+            self.lib2_init = [("assign", "LH0", ("num", rng.randint(1, 9)))]
+            f = progen.Fn("LK0", 1)
+            f.globals_written = ["LH0"]
+            f.body = [("assign", "LH0", ("bin", "+", ("var", "LH0"), ("var", "p0"))), ("return", ("bin", "*", ("var", "LH0"), ("num", 2)))]
+            f.returns_value = True
+            f.calls = 2
+            P.funcs.append(f)
+            self.lib2_fn = f
+        else:
+            self.lib2_init = []
+        # optionally one function that lives in the main file (it may call into the libraries; it reads no library variable)
+        self.main_fn = None
+        if rng.random() < 0.5:
+            saved = P.globals_initial
+            P.globals_initial = []
+            f = g.function(len(P.funcs), [x for x in P.funcs])
+            P.globals_initial = saved
+            f.name = "MF0"
+            f.calls = 2
+            P.funcs.append(f)
+            self.main_fn = f
         # main: its own globals (some spelled like the library's), calls into the library
         sc = {"fn": None, "readable": [], "writable": [], "frozen": set(), "callable": list(P.funcs)}
         body = g.block(sc, rng.randint(2, 5), 2)
+        for f in [x for x in (self.lib2_fn, self.main_fn) if x is not None]:
+            for _ in range(2):
+                call = ("call", f.name, [g.num() for _ in range(f.nparams)])
+                st = ("effect", "EKs", "db.Setting = {3}", [("num", 0), ("num", 6), ("num", progen.LT("Setting")), call]) if f.returns_value else ("expr", call)
+                body.insert(rng.randint(0, len(body)), st)
         for f in P.funcs:
             if f.calls < 2 and rng.random() < 0.7 or f.calls == 0:
                 f.calls += 1
@@ -76,12 +111,16 @@ class Split:
         if rng.random() < 0.6:
             body.append(("while", ("num", 1), [("effect", "EKyield", "yield_()", [])] + g.block(sc, rng.randint(0, 2), 1, in_loop=True)))
         self.main_body = body
-        P.main = self.lib_init + body
+        P.main = self.lib_init + self.lib2_init + body
         self.P = P
-        self.main_globals = [v for v in P.globals if v not in self.lib_globals]
+        self.main_globals = [v for v in P.globals if v not in self.lib_globals and v != "LH0"]
         # spelling
         self.lib_names = {v: f"gm{i}" for i, v in enumerate(self.lib_globals)}
         self.fn_names = {f.name: rng.choice([f"f{i}", f"calc_{i}", f"upd{i}"]) for i, f in enumerate(P.funcs)}
+        if self.lib2_fn is not None:
+            self.fn_names["LK0"] = rng.choice(["step", "bump", "f0"])
+        if self.main_fn is not None:
+            self.fn_names["MF0"] = rng.choice(["scaled", "mainfn", "f0"])
         self.main_names = {}
         for i, v in enumerate(self.main_globals):
             # provoke collisions between a main-level name and a library-level name
@@ -107,23 +146,44 @@ class Split:
         Q.main = rename(self.lib_init, vm_lib, fm_lib)
         lib.append(Q.text())
         for f in self.P.funcs:
+            if f is self.lib2_fn or f is self.main_fn:
+                continue
             lib.append(self._fn_text(f, vm_lib, fm_lib, self.fn_names[f.name]))
         # never-called function and a __main__ block: must contribute nothing
         lib.append("def never_called(q):\n    d5.Setting = q + 12345\n    return q\n")
         lib.append('if __name__ == "__main__":\n    d4.Setting = 777\n    never_called(3)\n')
         al = self.alias or self.mod
         fm_main = {k: f"{al}.{v}" for k, v in self.fn_names.items()}
+        mods = {}
+        imp = f"from library import {self.mod}" + (f" as {self.alias}" if self.alias else "") + "\n"
+        if self.lib2_fn is not None:
+            al2 = self.alias2 or self.mod2
+            fm_main["LK0"] = f"{al2}.{self.fn_names['LK0']}"
+            imp += f"from library import {self.mod2}" + (f" as {self.alias2}" if self.alias2 else "") + "\n"
+            Q2 = progen.Prog()
+            Q2.main = rename(self.lib2_init, {"LH0": "state"}, {})
+            mods[self.mod2] = Q2.text() + self._fn_text(self.lib2_fn, {"LH0": "state"}, {}, self.fn_names["LK0"])
+        fn_text = ""
+        if self.main_fn is not None:
+            fm_main["MF0"] = self.fn_names["MF0"]
+            fn_text = self._fn_text(self.main_fn, dict(self.main_names), fm_main, self.fn_names["MF0"])
         Q = progen.Prog()
         Q.devvars = list(self.P.devvars)
         Q.main = rename(self.main_body, dict(self.main_names), fm_main)
-        imp = f"from library import {self.mod}" + (f" as {self.alias}" if self.alias else "") + "\n"
-        return {"": imp + Q.text(), self.mod: "".join(lib)}
+        mods[""] = imp + fn_text + Q.text()
+        mods[self.mod] = "".join(lib)
+        return mods
 
     def merged(self):
         pre = self.mod + "_"
         vm = {k: pre + v for k, v in self.lib_names.items()}
         vm.update(self.main_names)
         fm = {k: pre + v for k, v in self.fn_names.items()}
+        if self.lib2_fn is not None:
+            vm["LH0"] = self.mod2 + "__state"
+            fm["LK0"] = self.mod2 + "__" + self.fn_names["LK0"]
+        if self.main_fn is not None:
+            fm["MF0"] = self.fn_names["MF0"]
         Q = progen.Prog()
         Q.devvars = list(self.P.devvars)
         for f in self.P.funcs:
@@ -132,7 +192,7 @@ class Split:
             f2.globals_written = [vm.get(x, x) for x in f.globals_written]
             f2.body = rename(f.body, vm, fm)
             Q.funcs.append(f2)
-        Q.main = rename(self.lib_init + self.main_body, vm, fm)
+        Q.main = rename(self.lib_init + self.lib2_init + self.main_body, vm, fm)
         return Q.text()
 
 
